@@ -102,6 +102,12 @@ CLAIMS = {
         "text": "Decides: all three feature configurations build; the decode model (grammar paths, bit provenance, value and checksum forms) is identical for std and alloc-only (and serde in the thorough tier); abstract Airplanes::action outcomes per frame kind agree modulo cfg-only fields; no branch outside prune is decided by a std-only timestamp; float math goes through libm/core; every type reachable from Frame/Airplanes implements Serialize and Deserialize with no asymmetric attribute. NOT decided: dependency behaviour across features, a concrete format's float round trip.",
         "note": TRUST,
     },
+    "C11": {
+        "engine": "tmpl", "technique": "abstract interpretation of <Frame as Display>::fmt on every decoded frame kind, linked to AST format sites; bit-provenance matching of printed values against decoded fields",
+        "design_ref": "DESIGN.md §4 C11",
+        "text": "Decides: the value printed after a label of a known class is the frame's own decoded field with exactly that bit provenance; the address source per format (checksum vs announced); presence of optional lines vs their condition bits (heading-valid, ACAS, HRD, L/W, vertical rate > 0, altitude > 0, velocity available); enum variant -> word maps; non-empty report for every supported frame kind on every path. Byte-exact output / float formatting are NOT decided; label wording around the keyword is free.",
+        "note": TRUST,
+    },
     "C03": {
         "engine": "ai",
         "technique": "const-evaluated table comparison + GF(2) bit-provenance abstract interpretation of the checksum loop",
